@@ -1095,6 +1095,45 @@ def r73_writer(ctx, repo):
                f"equal: the mapping entry names a missing or foreign "
                f"feature", node=d, label=lab)
     ctx.stat("R7.3 store_basin mapping-name definitions", len(defs))
+    # an existing map feature is never overwritten: the map is stored under a
+    # name only on paths on which that name was found absent from the file –
+    # in every writer mode (store_feature replaces existing data in
+    # "replace" mode, which would hand the new map to an older basin)
+    stores = [c for c in find_calls(sb, attr="store_feature")
+              if is_name(kwarg(c, "data", 1), MAPN)
+              and isinstance(kwarg(c, "feat", 0), ast.Name)]
+    if not stores:
+        raise AnalysisError("store_basin: the map is never stored")
+    for c in stores:
+        nm = kwarg(c, "feat", 0).id
+        names = {nm}
+        for n in walk(sb):
+            if isinstance(n, ast.Assign) and len(n.targets) == 1 and is_name(
+                    n.targets[0], nm) and isinstance(n.value, ast.Name):
+                names.add(n.value.id)
+
+        def absent(e, t, names=names):
+            if not (isinstance(e, ast.Compare) and len(e.ops) == 1
+                    and isinstance(e.left, ast.Name)
+                    and e.left.id in names):
+                return False
+            cont = expand_locals(sb, e.comparators[0])
+            if cont not in ("self.h5file['events']",
+                            "self.h5file['events'].keys()"):
+                return False
+            return (isinstance(e.ops[0], ast.In) and not t) or (
+                isinstance(e.ops[0], ast.NotIn) and t)
+        ok = edge_guarded(g, cfg_ids(g, c), fact_guard(absent))
+        ctx.ob("R7.3", ok,
+               f"the map is written under `{nm}` only when no feature of "
+               f"that name exists yet" if ok else
+               f"`{short(c, 60)}` can run although a feature of that name "
+               f"exists (the existence test does not dominate it on its "
+               f"own): in 'replace' mode store_feature overwrites the map of "
+               f"a basin stored earlier, which then reads the origin through "
+               f"the new basin's map", node=c,
+               label=f"map stored only under an unused name "
+               f"{short(c, 50)}")
 
 
 # ----------------------------------------------------------------------
@@ -1541,7 +1580,7 @@ def run(ctx):
     ctx.rule("R7.2", "every proxy route indexes the origin through the map; "
              "mapped basins wrapped; map read from the referrer", minimum=22)
     ctx.rule("R7.3", "map composition on export (filter, hierarchy child, "
-             "upstream basins), mapping name = stored feature", minimum=20)
+             "upstream basins), mapping name = stored feature", minimum=22)
     ctx.rule("R7.4", "named objects are created once (name varies with "
              "every enclosing loop or creation is guarded)", minimum=7)
     ctx.rule("R7.5", "relocation: relative lookup, bare file name stored, "
@@ -1667,6 +1706,14 @@ MUTANTS = [
     ("hierarchy basin keeps the child's format", EXPORT,
      ('"basin_format": ds_root.format,', '"basin_format": ds.format,'),
      "R7.3"),
+    ("existing map not compared in replace mode (seeded C07_8)", WRITER,
+     ('                    if bm_cand in self.h5file["events"]:\n',
+      '                    if (bm_cand in self.h5file["events"]\n'
+      '                            and self.mode != "replace"):\n'), "R7.3"),
+    ("explicit map name overwritten in replace mode", WRITER,
+     ('                if basin_map_name not in self.h5file["events"]:\n',
+      '                if (basin_map_name not in self.h5file["events"]\n'
+      '                        or self.mode == "replace"):\n'), "R7.3"),
     ("new map feature never stored", WRITER,
      ("                        basin_map_name = bm_cand\n"
       "                        self.store_feature(feat=basin_map_name, "
@@ -1852,6 +1899,10 @@ TWINS = [
      _TWIN_CANDIDATES),
     ("definitions of the exported dataset built by a helper", EXPORT,
      _twin_origin_helper),
+    ("map name search with early continue", WRITER,
+     ('                    if bm_cand in self.h5file["events"]:\n',
+      '                    known_maps = self.h5file["events"]\n'
+      '                    if bm_cand in known_maps:\n')),
     ("basin_map tuple expanded by a conditional expression", WRITER,
      ("        if isinstance(basin_map, (list, tuple)) and len(basin_map) == 2:\n"
       "            basin_map_name, basin_map = basin_map\n"
